@@ -298,6 +298,8 @@ void OPNMIDIplay::realTime_ResetState()
         noteUpdateAll(uint16_t(ch), Upd_All);
         noteUpdateAll(uint16_t(ch), Upd_Off);
     }
+    // The pedals have been reset too: end the notes they were holding
+    killSustainingNotes(-1, -1, OpnChannel::LocationData::Sustain_ANY);
     synth.m_masterVolume = MasterVolumeDefault;
 }
 
